@@ -257,7 +257,7 @@ template <class G> struct Explorer {
   GOp OPS[NOPS];
   std::unordered_map<MemoKey, InvR, MemoHash> memo;
   uint64_t n_traces = 0, n_states = 0, n_trans = 0, n_amb = 0, n_unamb = 0, n_nan = 0, n_pole = 0, n_probe = 0, n_variants = 0,
-           n_cutskip = 0, n_keycoll = 0, n_merged = 0, n_refcmp = 0, n_lonrange = 0, n_over = 0, n_metaskip = 0;
+           n_cutskip = 0, n_keycoll = 0, n_merged = 0, n_refcmp = 0, n_lonrange = 0, n_over = 0, n_metaskip = 0, n_inter = 0, n_padmask = 0;
 
   Explorer(Ctx& c, const Cfg& cf, const G& e) : ctx(c), cfg(cf), earth(e) {
     A0 = earth.EllipsoidArea(); U0 = mc::ulp_of(A0); kl = cfg.a / AW; ka = kl * kl;
@@ -438,6 +438,89 @@ template <class G> struct Explorer {
     return r;
   }
 
+  // ---------------------------------------------------------------- const queries made part of the history
+  // The BFS materialises a state by replaying mutating operations only, and canon() lists the members known today.  A
+  // change that lets a const query leave something behind (a memo in a new mutable member, not reset by Clear, ...) is
+  // invisible to both.  So every state is also reached on objects on which the query set Q (Compute x 4 (reverse,sign),
+  // 2 TestPoint, 2 TestEdge) is executed after EVERY mutating operation, including Clear, in three histories:
+  //   plain   : h with Q interleaved
+  //   same-n  : a different polygon with as many vertices as the state, Q interleaved; Clear; Q; then h with Q interleaved
+  //   fixed   : P(-20,359.5) E(90,1e6) P(45,90), Q interleaved; Clear; Q; then h with Q interleaved
+  //   same-n quiet / fixed quiet : the same prefixes with Q only after the last prefix operation and after Clear, then h
+  //             WITHOUT intermediate queries (so that nothing refreshes what the prefix left behind)
+  // At the end the final query set must answer BIT-identically to the cleanly replayed object, the canonical keys must be
+  // equal, and the whole object representation outside the _earth member (objects are constructed in zero-filled storage,
+  // so padding is neutral; both objects have answered the same final queries) must be identical byte for byte.
+  struct ZObj {
+    alignas(PA) unsigned char buf[sizeof(PA)]; PA* p;
+    ZObj(const G& e, bool polyline) { memset(buf, 0, sizeof buf); p = new (buf) PA(e, polyline); }
+    ~ZObj() { p->~PA(); }
+    ZObj(const ZObj&) = delete; ZObj& operator=(const ZObj&) = delete;
+  };
+  struct QRes { std::vector<Out> o; };
+  void query_set(const PA& p, QRes* r) {
+    static const int TP[2] = {2, 11}, TE[2] = {13, 16}, FL[2] = {1, 2};
+    auto put = [&](unsigned nn, double per, double area) { if (r) r->o.push_back(Out{nn, per, area}); };
+    for (int f = 0; f < 4; ++f) { double per = SENT, area = SENT; unsigned nn = p.Compute(f >> 1, f & 1, per, area); put(nn, per, area); }
+    for (int t : TP) for (int f : FL) { double per = SENT, area = SENT; unsigned nn = p.TestPoint(OPS[t].a, OPS[t].b, f >> 1, f & 1, per, area); put(nn, per, area); }
+    for (int t : TE) for (int f : FL) { double per = SENT, area = SENT; unsigned nn = p.TestEdge(OPS[t].a, OPS[t].b, f >> 1, f & 1, per, area); put(nn, per, area); }
+  }
+  // bytes outside _earth that differ; `mask` (optional) marks bytes to ignore.  Immediately after construction from the same
+  // arguments every member is equal, so a difference found then is padding that the constructor itself wrote (gcc stores the
+  // bool _polyline with a 4-byte move whose upper bytes are whatever the register held): those bytes are masked.
+  static std::string bytediff(const PA& a, const PA& b, std::vector<char>* setmask, const std::vector<char>* mask) {
+    const unsigned char *x = (const unsigned char*)&a, *y = (const unsigned char*)&b;
+    size_t e0 = (size_t)((const unsigned char*)&a._earth - x), e1 = e0 + sizeof(G);
+    std::string s;
+    if (setmask) setmask->assign(sizeof(PA), 0);
+    for (size_t i = 0; i < sizeof(PA); ++i) {
+      if (i >= e0 && i < e1) continue;
+      if (mask && (*mask)[i]) continue;
+      if (x[i] != y[i]) { if (setmask) (*setmask)[i] = 1; if (s.size() < 200) s += " +" + fmti((long long)i); }
+    }
+    return s;
+  }
+  void interleaved(const std::vector<GOp>& hops, int n) {
+    Ctx::Case cs(ctx);
+    ZObj clean(earth, cfg.polyline);
+    alignas(PA) unsigned char snap[sizeof(PA)];
+    memcpy(snap, clean.buf, sizeof snap);                              // byte snapshot of `clean` as constructed (only its bytes outside _earth are read)
+    for (auto& o : hops) apply(*clean.p, o);
+    ++n_traces;
+    QRes want; query_set(*clean.p, &want);
+    Key kc = canon(*clean.p);
+    static const int SAME[5] = {8, 5, 2, 0, 11};              // (45,90) (-20,-0.5) (10,180) (0,0) (30,1e-13)
+    for (int variant = 0; variant < 5; ++variant) {
+      std::vector<GOp> pre;
+      const bool quiet = variant >= 3;                          // queries only at the end of the prefix, after Clear and at the end
+      if (variant == 1 || variant == 3) { if (n == 0) continue; for (int i = 0; i < n; ++i) pre.push_back(OPS[SAME[i % 5]]); }
+      if (variant == 2 || variant == 4) { pre.push_back(OPS[4]); pre.push_back(OPS[13]); pre.push_back(OPS[8]); }
+      if (variant) pre.push_back(OPS[NOPS - 1]);              // Clear
+      static const char* VN[5] = {"plain", "same-n", "fixed", "same-n quiet", "fixed quiet"};
+      const char* vn = VN[variant];
+      ZObj w(earth, cfg.polyline);
+      std::vector<char> mask;
+      if (!bytediff(*w.p, *(const PA*)snap, &mask, nullptr).empty()) ++n_padmask;
+      for (size_t i = 0; i < pre.size(); ++i) { apply(*w.p, pre[i]); if (!quiet || i + 2 >= pre.size()) query_set(*w.p, nullptr); }
+      for (auto& o : hops) { apply(*w.p, o); if (!quiet) query_set(*w.p, nullptr); }
+      ++n_traces; ++n_inter;
+      QRes got; query_set(*w.p, &got);
+      std::string where = std::string("interleaved ") + vn + (pre.empty() ? std::string() : " [" + opsstr(pre) + "]");
+      for (size_t i = 0; i < want.o.size(); ++i) {
+        const Out &a = want.o[i], &b = got.o[i];
+        if (a.n != b.n || !mc::same_bits(a.per, b.per) || !mc::same_bits(a.area, b.area)) {
+          fail("interleaved-query-result", where, "query #" + fmti((long long)i) + " (0-3 Compute, 4-7 TestPoint, 8-11 TestEdge) answers n=" + fmti(b.n) + " perimeter=" + fx(b.per) + " area=" + fx(b.area) +
+               " on an object whose history contains const queries, but n=" + fmti(a.n) + " perimeter=" + fx(a.per) + " area=" + fx(a.area) + " on a cleanly replayed object");
+          break;
+        }
+      }
+      Key kw = canon(*w.p);
+      if (kw != kc) fail("interleaved-state-key", where, "canonical state differs from the cleanly replayed object: " + keydiff(kw, kc));
+      std::string bd = bytediff(*w.p, *clean.p, nullptr, &mask);
+      if (!bd.empty()) fail("interleaved-object-bytes", where, "object representation (outside _earth, sizeof " + fmti((long long)sizeof(PA)) + ") differs from the cleanly replayed object at byte offsets" + bd);
+    }
+  }
+
   // ---------------------------------------------------------------- everything that is checked at one state
   void eval_state(const std::vector<uint8_t>& hist, const Key& bfskey) {
     std::vector<GOp> hops; for (uint8_t i : hist) hops.push_back(OPS[i]);
@@ -495,6 +578,9 @@ template <class G> struct Explorer {
       ctx.sig((uint64_t)n * 32 + (t0.nonuniq ? 1 : 0) + (t0.polecross ? 2 : 0) + (t0.nan ? 4 : 0) + (obj._crossings & 1 ? 8 : 0) + (t0.overpole ? 16 : 0));
       if (ctx.want_sample()) ctx.sample(cfg.name + " " + curhist + " -> n=" + fmti(q0.o[1].n) + " perimeter=" + g17(q0.o[1].per) + (cfg.polyline ? std::string() : " area(ccw,signed)=" + g17(q0.o[1].area)) + (t0.nonuniq ? " [non-unique edge]" : ""));
     }
+
+    // ---- const queries as part of the history (hidden state): see interleaved()
+    interleaved(hops, n);
 
     // ---- tentative queries: every point and every edge, all four flag combinations
     for (int ti = 0; ti < NPT + NED; ++ti) {
@@ -722,7 +808,7 @@ template <class G> struct Explorer {
       }
     }
     ctx.count("states", n_states); ctx.count("transitions", n_trans); ctx.count("traces", n_traces);
-    ctx.count("successor_probes", n_probe); ctx.count("variant_polygons", n_variants);
+    ctx.count("successor_probes", n_probe); ctx.count("histories_with_interleaved_queries", n_inter); ctx.count("object_pairs_with_constructor_written_padding_masked", n_padmask); ctx.count("variant_polygons", n_variants);
     ctx.count("reference_comparisons_unique_edges", n_unamb); ctx.count("polygons_with_nonunique_edge_no_reference", n_amb);
     ctx.count("reference_comparisons_with_edge_through_pole_lon_diff_180", n_over); ctx.count("metamorphic_comparisons_skipped_nonunique", n_metaskip);
     ctx.count("polygons_with_pole_crossing_direct_edge", n_pole); ctx.count("polygons_with_nan_vertex", n_nan);
@@ -740,6 +826,7 @@ int main(int argc, char** argv) {
   ctx.bound("alphabet.points", "(0,0) (0,-0.0) (10,180) (10,-180) (-20,359.5) (-20,-0.5) (90,77) (-90,0) (45,90) (45,90)again (0,720) (30,1e-13)");
   ctx.bound("alphabet.edges", "(azi,s): (90,0) (90,1e6) (-90,1e6) (0,2.1e7 over the pole) (90,4.5e7 more than one circuit) (135,1e3); s scaled by a/6378137");
   ctx.bound("depth", T ? "5 mutating operations for PolygonArea(Geodesic WGS84) polygon, 4 for every other configuration" : "4 mutating operations for PolygonArea(Geodesic WGS84) polygon, 3 for every other configuration");
+  ctx.bound("interleaved-queries", "per state 5 histories containing const queries (Compute x 4, 2 TestPoint, 2 TestEdge): after every mutating operation incl. Clear (plain; after a same-size polygon + Clear; after a fixed 3-vertex polygon + Clear) and the two prefixed ones with queries only before/after the Clear: final answers, canonical key and object bytes identical to the clean replay");
   ctx.bound("variants", "per state: all cyclic rotations, reversal, every longitude + {17,-360,720}, each point longitude + {-360,720}, all diagonals (n >= 4)");
   ctx.note("polygons with an edge whose shortest line is not unique ('taken to be unique' in the statement: antipodal end points incl. pole to pole for geodesics; opposite meridians for rhumb lines, Rhumb.hpp) have no defined area: no reference comparison, no reversal/shift/cut comparison (the choice among equally short lines may depend on direction and representation); rotation, Test==Add, flag relations and state predicates still apply; counted in polygons_with_nonunique_edge_no_reference");
   ctx.note("geodesic edges with longitude difference exactly +-180 between non-antipodal points are unique (the meridian through the nearer pole); the reference takes them east-going with S12 = +-A0/4; counted in reference_comparisons_with_edge_through_pole_lon_diff_180");
